@@ -331,8 +331,18 @@ func (env *Env) checkStats() string {
 		if msg := at(fmt.Sprintf("invocation %d (entry)", k), inv.SeqIn, inv.SeqRead, inv.Attempts, inv.Executions, inv.Retries, inv.Hedges); msg != "" {
 			return msg
 		}
-		if inv.IsFirst != (inv.Attempts == 1) || inv.IsRetry != (inv.Attempts > 1) {
-			return fmt.Sprintf("invocation %d: IsFirstAttempt=%v IsRetry=%v with Attempts=%d", k, inv.IsFirst, inv.IsRetry, inv.Attempts)
+		if !hasHedge {
+			if inv.IsFirst != (inv.Attempts == 1) || inv.IsRetry != (inv.Attempts > 1) {
+				return fmt.Sprintf("invocation %d: IsFirstAttempt=%v IsRetry=%v with Attempts=%d", k, inv.IsFirst, inv.IsRetry, inv.Attempts)
+			}
+		} else {
+			// the getters are read one at a time while hedges may start (rule 13): each flag must agree with some
+			// attempt count between the one at the start and the one at the end of the reads
+			lo := 1 + count("retry", inv.SeqIn) + count("hedge", inv.SeqIn)
+			hi := 2 + count("retry", inv.SeqRead) + count("hedge", inv.SeqRead)
+			if (inv.IsFirst && lo > 1) || (!inv.IsFirst && hi <= 1) || (inv.IsRetry && hi <= 1) || (!inv.IsRetry && lo > 1) {
+				return fmt.Sprintf("invocation %d: IsFirstAttempt=%v IsRetry=%v with Attempts between %d and %d while they were read", k, inv.IsFirst, inv.IsRetry, lo, hi)
+			}
 		}
 		if !hasHedge && inv.IsHedge {
 			return fmt.Sprintf("invocation %d: IsHedge without a hedge policy", k)
